@@ -503,7 +503,7 @@ func runC15(t *simrt.Tape, o Opts) Outcome {
 		case simrt.FailPanic:
 			out.Infra = nil
 			if len(out.Viols) == 0 {
-				out.Viols = append(out.Viols, world.Violation{Prop: "C15", Rule: "panic", Signature: "C15/goroutine-panic", Msg: f.Msg + "\n" + f.Stack})
+				out.Viols = append(out.Viols, world.Violation{Prop: "C15", Rule: "panic", Signature: "C15/" + panicKind(f.Msg), Msg: f.Msg + "\n" + f.Stack})
 			}
 		}
 	}
@@ -734,7 +734,7 @@ func runC15Concurrent(t *simrt.Tape, o Opts, pi, ci int, syn, expOn bool) Outcom
 		case simrt.FailPanic:
 			out.Infra = nil
 			if len(out.Viols) == 0 {
-				out.Viols = append(out.Viols, world.Violation{Prop: "C15", Rule: "panic", Signature: "C15/goroutine-panic", Msg: f.Msg + "\n" + f.Stack})
+				out.Viols = append(out.Viols, world.Violation{Prop: "C15", Rule: "panic", Signature: "C15/" + panicKind(f.Msg), Msg: f.Msg + "\n" + f.Stack})
 			}
 		}
 	}
